@@ -279,6 +279,21 @@ func TestF20(t *testing.T) {
 	}
 }
 
+// F23 (C05, repaired by 8458cab): the bracket strippers are greedy, so an alternation between two
+// groups (classes, counted repetitions) was stripped with them and the first branch became the
+// shortcut.
+func TestF23(t *testing.T) {
+	for _, tc := range [][2]string{
+		{`/xxx(a)yyy|zzz(b)/`, "http://example.org/zzzb"},
+		{`/foo{1}|bar{1}baz/`, "http://example.org/barbaz"},
+		{`/aaaa[x]|bbbb[y]cc/`, "http://example.org/bbbbycc"},
+	} {
+		if !regexRuleFires(t, tc[0], tc[1]) {
+			t.Errorf("%s does not fire on %s (shortcut %q)", tc[0], tc[1], mk(t, tc[0]).Shortcut)
+		}
+	}
+}
+
 // F21 (C06, recorded, not repaired): a $urlblock and a $genericblock exception matching the
 // referrer tie in priority; the one listed first becomes the document rule, so a
 // domain-specific blocking rule is suppressed under one order of the rules and blocks under
